@@ -65,6 +65,7 @@ def main(argv=None) -> int:
     s.add_argument("--json", default=None, help="also write the per-property counts and per-variant outcomes to this file")
     x = sub.add_parser("cross", help="development: every equivalent variant against every other property's rule set")
     x.add_argument("-j", type=int, default=16)
+    x.add_argument("--mutants", action="store_true", help="breaking variants instead: another property's rule set may report or stay silent, but must not crash")
     sub.add_parser("list")
     e = sub.add_parser("explain")
     e.add_argument("report")
@@ -95,7 +96,14 @@ def main(argv=None) -> int:
         from .selftest import run_cross
 
         def gox():
-            res = run_cross(ALL, jobs=a.j)
+            res = run_cross(ALL, jobs=a.j, kind="mutant" if a.mutants else "equiv")
+            if a.mutants:
+                bad = [r for r in res if r["status"] == "crash"]
+                print(f"cross self-test (mutants): {len(res)} pairs: " + ", ".join(f"{k} {sum(r['status'] == k for r in res)}" for k in ("violation", "silent", "analysis-error", "crash", "skipped")))
+                for r in res:
+                    if r["status"] in ("analysis-error", "crash"):
+                        print(f"   {r['owner']}/{r['id']} under {r['check']}: {r['status']} {r['detail']}")
+                return 2 if bad else 0
             bad = [r for r in res if r["status"] not in ("silent", "skipped")]
             print(f"cross self-test: {len(res)} (equivalent variant, other property) pairs, {sum(r['status'] == 'silent' for r in res)} silent, {sum(r['status'] == 'skipped' for r in res)} skipped, {len(bad)} not silent")
             for r in bad:
